@@ -2325,8 +2325,9 @@ class Request:
         try:
             # TODO(CaselIT): find a way to avoid encode + BytesIO if handlers
             # interface is refactored. Possibly using the WS interface?
+            param_bytes = param_value.encode()
             val = handler.deserialize(
-                BytesIO(param_value.encode()), MEDIA_JSON, len(param_value)
+                BytesIO(param_bytes), MEDIA_JSON, len(param_bytes)
             )
         except errors.HTTPBadRequest:
             msg = 'It could not be parsed as JSON.'
